@@ -23,6 +23,7 @@ def _job(args):
     from . import monitors, scen
     t0 = time.time()
     run = scen.run_spec(spec, seed=seed, prefix=prefix, preempt=preempt)
+    run.preempt_budget = preempt
     res = {"seed": seed, "preempt": preempt, "status": run.status, "virtual_s": run.now / 1e6, "events": len(run.trace),
            "choices": len(run.choices), "real_s": time.time() - t0, "violations": [], "blocked": run.blocked,
            "kinds": {}, "main_exc": repr(run.results.get("main_exc")) if "main_exc" in run.results else None}
@@ -55,6 +56,8 @@ def _job(args):
         pass
     if run.results.get("l5") is not None:
         res["l5"] = run.results["l5"]
+    if run.results.get("cc") is not None:
+        res["cc"] = run.results["cc"]
     if run.status not in ("all-finished",):
         res["violations"].append({"monitor": "sched", "kind": "hang", "what": f"run ended with status {run.status}; threads still blocked: {run.blocked}"})
     if res["violations"] or want_trace:
